@@ -50,6 +50,21 @@ def _orders_menu():
 MENU = _orders_menu()
 
 
+def _penny_menu():
+    """orders against books whose levels are pennies wide: rounding of price x size must not decide a fill"""
+    m = []
+    for side in ("BACK", "LAY"):
+        for lim in [round(1.6 + 0.1 * k, 1) for k in range(19)]:
+            for size, mf in ((10.0, 0.02), (10.0, 0.01), (0.02, None), (10.0, None)):
+                m.append(dict(sel=1, side=side, price=lim, size=size, tif="FILL_OR_KILL", mf=mf, pers="LAPSE"))
+            m.append(dict(sel=1, side=side, price=lim, size=0.03, tif=None, mf=None, pers="LAPSE"))
+    return m
+
+
+MENU_PENNY = _penny_menu()
+PENNY_LADDER = (1.5, 2.0, 2.5, 3.0, 3.5)
+
+
 class Hooks:
     def __init__(self):
         self.after_resp = {}  # id(order) -> (remaining, matched, status) right after the place response
@@ -72,7 +87,8 @@ def _sat(side, price, limit, tol=F(0)):
 
 
 def _one(args):
-    levels, bpe, full_match, trades = args
+    levels, bpe, full_match, trades = args[:4]
+    MENU = MENU_PENNY if (len(args) > 4 and args[4] == "penny") else globals()["MENU"]
     book0 = {1: {"atb": levels, "atl": levels, "trd": [[2.0, 10]]}, 2: {"atb": [[3.0, 5]], "atl": [[3.2, 5]]}}
     spec = simx.MarketSpec(book0=book0)
     ticks = [[200, ["Q"]]] + [[200, ev] for ev in trades]
@@ -82,7 +98,7 @@ def _one(args):
         [(spec, ticks)],
         [dict(script={(0, 0): acts}, kw=dict(max_order_exposure=None, max_selection_exposure=None, max_live_trade_count=10**6))],
         hooks=h,
-        client_kw=dict(best_price_execution=bpe, simulated_full_match=full_match),
+        client_kw=dict(best_price_execution=bpe, simulated_full_match=full_match, min_bet_validation=(MENU is not MENU_PENNY)),
     ).run()
     out = []
     counts = {"clause:C05.a": 0, "clause:C05.b": 0, "clause:C05.c": 0, "clause:C05.d": 0, "crossed_2_levels": 0, "fok_filled": 0, "fok_killed": 0, "bpe_lapsed": 0, "rested": 0, "passive_fills": 0}
@@ -96,7 +112,7 @@ def _one(args):
     best_back = max(avail) if avail else None
     best_lay = min(avail) if avail else None
     sig = []
-    case = dict(levels=levels, bpe=bpe, full_match=full_match, trades=trades)
+    case = dict(levels=levels, bpe=bpe, full_match=full_match, trades=trades, menu="penny" if MENU is MENU_PENNY else "std")
     for t, o in zip(MENU, st.known):
         side, lim, size = t["side"], t["price"], t["size"]
         fok = t["tif"] == "FILL_OR_KILL"
@@ -170,6 +186,18 @@ def _one(args):
             later = o.simulated.matched[len(frags_at_resp) :]
             if later:
                 counts["passive_fills"] += 1
+                # a resting order cannot take more than (half of) what traded at prices satisfying its limit
+                cap = 0.0
+                for ev in trades:
+                    if ev[0] != "T":
+                        continue  # a ladder-only update: the traded volume is unchanged
+                    for p_, v_ in ev[2]:
+                        if _sat(side, p_, lim):
+                            cap += v_ / 2.0
+                got_passive = sum(z for _, _, z in later)
+                counts["clause:C05.b"] += 1
+                if got_passive > cap + 1e-9:
+                    out.append(core.v("C05.b", key("traded availability"), "%s limit %s took %s passively, only %s traded at its price or better (halved)" % (side, lim, got_passive, cap), dict(case, order=t)))
             for _, p, s in later:
                 if not _sat(side, p, lim):
                     out.append(core.v("C05.a", key("limit-resting"), "%s limit %s passive fill at %s" % (side, lim, p), dict(case, order=t)))
@@ -190,7 +218,7 @@ def _dedup(vs, per_key=2):
     return out
 
 
-TRADES = (["T", 1, [[1.9, 8]]], ["T", 1, [[2.0, 8]]], ["T", 1, [[2.1, 8]]], ["T", 1, [[2.5, 4], [1.9, 4]]])
+TRADES = (["T", 1, [[1.9, 8]]], ["T", 1, [[2.0, 8]]], ["T", 1, [[2.1, 8]]], ["T", 1, [[2.5, 4], [1.9, 4]]], ["T", 1, []], ["B", 1, "atl", [[2.6, 3]]])
 
 
 def run(tier):
@@ -214,6 +242,13 @@ def run(tier):
         for n in range(1, tlen + 1):
             for seq in itertools.product(TRADES, repeat=n):
                 jobs.append((lv, True, False, [list(e) for e in seq]))
+    # penny-wide levels (optionally in front of a deep level at the worst price)
+    for lv in books(3, (0.01, 0.02), PENNY_LADDER):
+        for deep in (None, 50):
+            if deep and lv:
+                worst_b = min(p for p, _ in lv)
+                jobs.append((lv + [[round(worst_b - 0.1, 2), deep]], True, False, [], "penny"))
+            jobs.append((lv, True, False, [], "penny"))
     placements = 0
     for r in core.pmap(_one, jobs):
         rep.add_violations(r["violations"])
@@ -246,7 +281,7 @@ def run(tier):
 
 def replay(rep):
     c = rep["case"]
-    r = _one((c["levels"], c["bpe"], c["full_match"], c["trades"]))
+    r = _one((c["levels"], c["bpe"], c["full_match"], c["trades"], c.get("menu", "std")))
     for d in r["violations"]:
         print(d["key"], d["detail"])
     return 1 if r["violations"] else 0
